@@ -246,3 +246,12 @@ _extend("C20", "alias rule for the shared attributes reached through the instanc
         "Additionally: the published table and the coordinate tuple are not changed in place through self.__dict__, vars(self) or a shallow copy of it.")
 _extend("C18", "the multiplication-table rules of C17 are evaluated for C18 as well",
         "Additionally: the precomputed table a verifying key's point may carry holds affine doublings and is walked as C17 requires.")
+
+# ---- round 9 of breaking changes and the seventh refactoring round
+_extend("C17", "evaluation of the ECDH curve guard as a predicate over all identity assignments; evaluation of x() / y() against X / Z^2 and Y / Z^3",
+        "Additionally: key agreement raises exactly when the three curves are not all equal; PointJacobi.x() / y() are the affine coordinates for sampled points over three primes.")
+_extend("C18", "affine-coordinate evaluation shared with C17", "Additionally: the x coordinate the verifier compares with r is X / Z^2 modulo p.")
+_extend("C19", "exception-escape rule with the number-theory helpers' own errors treated as undocumented", "Additionally: no decoder lets numbertheory.Error / SquareRootError / JacobiError escape unconverted.")
+_extend("C20", "who-may-write rule for the multiplication table", "Additionally: only the constructors and the one publisher (and helpers reached only from them) assign the table.")
+_extend("C16", "data-independence of control flow in the mode and feeder scenarios", "Additionally: no branch of a mode of operation or feeder depends on the value of a byte produced by the block function.")
+_extend("C09", "the multiplication-table rules of C17 and the publication rules of C20 are evaluated for C09 as well", "Additionally: the table through which the ephemeral point k*G is computed holds affine doublings and is never visible half built.")
